@@ -271,6 +271,49 @@ func c16Timestamp(c *Ctx, p *Prog, m *Model) {
 				}
 			}
 		}
+		if pick, _ := pickLoop(p, su); pick != nil && !(ok && okBranch) {
+			// "m := last argument or true; store 2 if m else 1": decided by walking both values of the pick
+			good := true
+			for _, mv := range []bool{true, false} {
+				t := walkDecision(su.Blocks[0], map[string]bool{"mode": mv, "more": false}, func(cond ssa.Value) (string, bool) {
+					if cond == pick {
+						return "mode", true
+					}
+					if bo, isB := cond.(*ssa.BinOp); isB && bo.Op == token.LSS {
+						if phi, isPhi := pick.(*ssa.Phi); isPhi && bo.Block() == phi.Block() {
+							return "more", true
+						}
+					}
+					return "", false
+				}, nil)
+				if t.Kind != "return" {
+					good = false
+					continue
+				}
+				var stored []int64
+				for _, b := range t.Path {
+					for _, in := range b.Instrs {
+						if st, isSt := in.(*ssa.Store); isSt {
+							if fa, isFA := st.Addr.(*ssa.FieldAddr); isFA && fa.X == ssa.Value(receiver(su)) && nm(structOf(fa.X.Type()).Field(fa.Field)) == "modeUTC" {
+								if v, isC := constInt(resolveAlong(st.Val, t.Path)); isC {
+									stored = append(stored, v)
+								} else {
+									stored = append(stored, -1)
+								}
+							}
+						}
+					}
+				}
+				want := int64(1)
+				if mv {
+					want = 2
+				}
+				if len(stored) == 0 || stored[len(stored)-1] != want {
+					good = false
+				}
+			}
+			ok, okBranch = good, good
+		}
 		r.Check(ok && okBranch, "R16.1", "Entry.SetUTCMode", p.FuncPos(su), "stores 2 (UTC) for no argument/true and 1 (local) for false", "SetUTCMode does not store 2 for no argument/true and 1 for false")
 	} else {
 		r.Unk("R16.1", "Entry.SetUTCMode", "-", "not found")
